@@ -604,3 +604,29 @@ def closure_ctx(prog, ctx, operand):
             if cb is not None:
                 return ctx_of(prog, cb.path)
     return None
+
+
+def variant_edges(ctx, local, variant):
+    """CFG edges on which the enum held in `local` is known to be `variant` (switch on its discriminant)"""
+    out = []
+    for b in ctx.body.blocks:
+        if b.cleanup:
+            continue
+        for s_ in b.stmts:
+            if s_.k == "assign" and s_.rv.k == "discr" and s_.rv.place.local == local and not s_.rv.place.proj \
+                    and not s_.place.proj:
+                variants = s_.rv.j.get("vars", {})
+                t = b.term
+                if t is None or t.k != "switch" or t.discr.place is None or t.discr.place.local != s_.place.local:
+                    continue
+                listed = set()
+                for v, d in t.tv:
+                    nm = variants.get(str(v))
+                    listed.add(nm)
+                    if nm == variant:
+                        out.append((b.idx, d, v))
+                rest = [n for n in variants.values() if n not in listed]
+                tt = ctx.body.blocks[t.otherwise].term
+                if rest == [variant] and not (tt is not None and tt.k == "unreachable"):
+                    out.append((b.idx, t.otherwise, "otherwise"))
+    return out
